@@ -207,6 +207,10 @@ namespace link_layer {
 
             if ( type == pdu_type_start )
             {
+                // a new start fragment ends every SDU that is still incomplete
+                receive_buffer_used_ = 0;
+                receive_size_        = 0;
+
                 if ( body_size >= l2cap_header_size )
                 {
                     const std::uint16_t l2cap_size  = bluetoe::details::read_16bit( body.first );
@@ -243,7 +247,7 @@ namespace link_layer {
     {
         const std::size_t copy_size = std::min< std::size_t >( receive_size_, end - begin );
 
-        std::copy( begin, end, &receive_buffer_[ receive_buffer_used_ ] );
+        std::copy( begin, begin + copy_size, &receive_buffer_[ receive_buffer_used_ ] );
         receive_buffer_used_ += copy_size;
         receive_size_ -= copy_size;
     }
